@@ -82,8 +82,14 @@ def main():
     lines = []
     for (kind, d, m, y, n) in cases:
         frac = 0.0 if kind == 'valid' else rng.choice([0.0, 0.5, 0.99])
-        lines.append(kcase('DateGenerator', [d + (frac if d >= 0 else -frac), float(m), float(y)], [], [[0.0] * n]))
-    impl = run_impl(lines)
+        # the tick input only supplies the run LENGTH: its values (zeros, ones, a step counter, week lengths, anything) must not
+        # influence the calendar
+        pat = rng.choice(['zeros', 'ones', 'counter', 'sevens', 'random', 'special'])
+        tick = {'zeros': lambda t: 0.0, 'ones': lambda t: 1.0, 'counter': lambda t: float(t), 'sevens': lambda t: 7.0,
+                'random': lambda t: rng.choice([-3.0, 0.5, 2.0, 30.0, 365.0, 1e5]),
+                'special': lambda t: rng.choice([float('nan'), float('inf'), -0.0, 5e-324])}[pat]
+        lines.append(kcase('DateGenerator', [d + (frac if d >= 0 else -frac), float(m), float(y)], [], [[tick(t) for t in range(n)]]))
+    impl = run_impl(lines, timeout=90)
     model = run_model(lines)
     # environment independence: the emitted dates are the proleptic Gregorian calendar, not somebody's civil time, so
     # the process's time zone must not matter; a sample is re-run with the zone database embedded (-tags timetzdata)
